@@ -336,7 +336,9 @@ def str_len(v):
                 sym = t if sym is None else sym + t
         if sym is None:
             return k
-        return sym if k == 0 else k + sym
+        res = sym if k == 0 else k + sym
+        res._lb = k          # lower bound known syntactically (lengths are non-negative)
+        return res
     return z3.Length(to_zstr(v))
 
 
